@@ -51,6 +51,7 @@ pub fn cheat_name(c: &Cheat) -> &'static str {
 
 pub fn c01(ctx: &mut Ctx) {
     oods_binding(ctx);
+    public_memory_argument(ctx);
     real_layout_forgeries(ctx);
     let scenario = "c01.byzantine";
     let n_runs: u64 = if ctx.is_quick() { 320 } else { 12_000 };
@@ -250,6 +251,125 @@ pub fn oods_binding(ctx: &mut Ctx) {
             }
         }
     }
+}
+
+// ------------------------------------------------------------------------------------------
+// the public-memory argument's verifier side: the product every main-page cell enters
+// ------------------------------------------------------------------------------------------
+//
+// The OODS binding above holds for the cells of the recorded pages. The quantity that carries it
+// is `get_public_memory_product_ratio`; it is compared here with the protocol's formula
+//   z^N / ( prod_cells (z - (addr + alpha*value)) * prod_pages page.prod * (z - pad)^(N - len) )
+// on pages of every length 0..=70 (every residue modulo small block sizes), and each single cell
+// change must change it.
+
+fn ratio_of(pi_img: &serde_json::Value, z: Felt, alpha: Felt, column: u64) -> Option<Felt> {
+    let pi: PublicInput = serde_json::from_value(pi_img.clone()).ok()?;
+    let r = monitor::guarded_val(10_000_000, || pi.get_public_memory_product_ratio(z, alpha, Felt::from(column)));
+    match r.outcome {
+        // deterministic: recompute outside the guard for the typed value
+        Outcome::Accept(_) => Some(pi.get_public_memory_product_ratio(z, alpha, Felt::from(column))),
+        _ => None,
+    }
+}
+
+pub fn public_memory_argument(ctx: &mut Ctx) {
+    let scenario = "c01.public-memory";
+    for p in ["page-length-multiple-of-4", "page-length-multiple-of-8", "page-empty", "with-continuous-pages"] {
+        ctx.stats.declare_probe(p);
+    }
+    let paths = stone_loader::shipped_proof_paths();
+    let template = match stone_loader::load_file(&paths[0]) {
+        Ok(l) => l.proof["public_input"].clone(),
+        Err(e) => ctx.harness_error(&format!("{}: {e}", paths[0])),
+    };
+    let n_runs: u64 = if ctx.is_quick() { 600 } else { 20_000 };
+    for k in 0..n_runs {
+        if !ctx.mine(9_000_000 + k) {
+            continue;
+        }
+        ctx.begin_run(scenario, k);
+        let mut rng = Rng::derive(ctx.seed, scenario, k);
+        let n = if k < 72 { k as usize % 72 } else { rng.usize_below(71) };
+        let cells: Vec<(Felt, Felt)> = (0..n).map(|i| (Felt::from(1 + i as u64 + rng.below(3) * 1000), rng.felt())).collect();
+        let n_pages = if rng.chance(1, 3) { rng.range(1, 2) as usize } else { 0 };
+        let pages: Vec<(u64, Felt)> = (0..n_pages).map(|_| (rng.range(1, 9), rng.felt_nonzero())).collect();
+        let (z, alpha) = (rng.felt_nonzero(), rng.felt());
+        let (pad_a, pad_v) = (Felt::from(rng.range(1, 50)), rng.felt());
+        let total = n as u64 + pages.iter().map(|p| p.0).sum::<u64>();
+        let column = total + rng.range(0, 8);
+        let mut img = template.clone();
+        img["main_page"] = json!(cells.iter().map(|(a, v)| json!({"address": image::felt_hex(a), "value": image::felt_hex(v)})).collect::<Vec<_>>());
+        img["continuous_page_headers"] = json!(pages.iter().enumerate().map(|(i, (sz, prod))| json!({"start_address": image::felt_hex(&Felt::from(5000 + 100 * i as u64)), "size": image::felt_hex(&Felt::from(*sz)), "hash": image::felt_hex(&Felt::from(77u64)), "prod": image::felt_hex(prod)})).collect::<Vec<_>>());
+        img["padding_addr"] = json!(image::felt_hex(&pad_a));
+        img["padding_value"] = json!(image::felt_hex(&pad_v));
+        if n % 4 == 0 && n > 0 {
+            ctx.stats.probe("page-length-multiple-of-4");
+        }
+        if n % 8 == 0 && n > 0 {
+            ctx.stats.probe("page-length-multiple-of-8");
+        }
+        if n == 0 {
+            ctx.stats.probe("page-empty");
+        }
+        if n_pages > 0 {
+            ctx.stats.probe("with-continuous-pages");
+        }
+        let model = {
+            let mut prod = Felt::ONE;
+            for (a, v) in &cells {
+                prod *= z - (*a + alpha * *v);
+            }
+            for (_, p) in &pages {
+                prod *= *p;
+            }
+            let pad = z - (pad_a + alpha * pad_v);
+            let denom = prod * pad.pow((column - total) as u128);
+            if denom == Felt::ZERO {
+                continue;
+            }
+            z.pow(column as u128) * crate::models::inv(denom)
+        };
+        let variant = ctx.variant.clone();
+        let spec = |faults: &[Fault]| replay_envelope("C01", scenario, &variant, json!({"call": "public-memory", "public_input": img, "z": image::felt_hex(&z), "alpha": image::felt_hex(&alpha), "column": column, "model": image::felt_hex(&model), "faults": faults}));
+        let got = ratio_of(&img, z, alpha, column);
+        ctx.stats.evaluations += 1;
+        ctx.stats.state(format!("public-memory|len%8={}|pages{}|{}", n % 8, n_pages, got == Some(model)));
+        if got != Some(model) {
+            ctx.violation("C01|public-memory|model-mismatch", &format!("public-memory product ratio of a {n}-cell main page with {n_pages} continuous page(s) differs from the protocol formula"), spec(&[]));
+            continue;
+        }
+        let idx: Vec<usize> = if n <= 16 { (0..n).collect() } else { let mut v = vec![0, n - 1, n - 2, n - 3, n - 4]; v.extend((0..6).map(|_| rng.usize_below(n))); v };
+        for i in idx {
+            for field in ["address", "value"] {
+                let path = format!("main_page[{i}].{field}");
+                let old = image::felt_of(&img["main_page"][i][field]).unwrap();
+                let f = Fault::Set { path: path.clone(), value: image::felt_hex(&(old + Felt::ONE)) };
+                let Some(img2) = proofrun::apply_faults(&img, std::slice::from_ref(&f)) else { continue };
+                let got2 = ratio_of(&img2, z, alpha, column);
+                ctx.stats.evaluations += 1;
+                ctx.stats.fired("statement-after-proof:memory-cell-product");
+                if got2 == got && alpha != Felt::ZERO {
+                    ctx.violation("C01|public-memory|cell-unbound", &format!("changing {path} of a {n}-cell main page leaves the public-memory product ratio unchanged"), spec(&[f]));
+                }
+            }
+        }
+    }
+}
+
+pub fn replay_public_memory(rep: &serde_json::Value) -> Result<(bool, String), String> {
+    let f = |k: &str| image::felt_of(&rep[k]).ok_or(format!("{k}"));
+    let (z, alpha, model) = (f("z")?, f("alpha")?, f("model")?);
+    let column = rep["column"].as_u64().ok_or("column")?;
+    let img = rep["public_input"].clone();
+    let faults: Vec<Fault> = serde_json::from_value(rep["faults"].clone()).map_err(|e| e.to_string())?;
+    let base = ratio_of(&img, z, alpha, column);
+    if faults.is_empty() {
+        return Ok((base != Some(model), format!("{base:?}")));
+    }
+    let img2 = proofrun::apply_faults(&img, &faults).ok_or("faults do not apply")?;
+    let got2 = ratio_of(&img2, z, alpha, column);
+    Ok((got2 == base, format!("{got2:?}")))
 }
 
 pub fn replay_oods_binding(rep: &serde_json::Value) -> Result<(bool, String), String> {
